@@ -236,6 +236,17 @@ def run_case(case):
         cfg2 = create_config_from_file(f1)
         a = [job_view(j) for j in cfg.iter_jobs()]
         b = [job_view(j) for j in cfg2.iter_jobs()]
+        # the configuration built over the public models must itself say what was put in
+        for i, (j, x) in enumerate(zip(case["jobs"], a)):
+            wt = walltime_minutes(case["groups"][j["group"]]["slurm"]["walltime"])
+            intended = {"name": j["name"] if j["name"] is not None else str(i + 1), "command": j["command"].strip(),
+                        "blocked_by": sorted({str(t) for t in j["blocked_by"]}), "cancel": j["cancel"], "group": f"grp{j['group']}",
+                        "est": None if j["est_permille"] is None else max(1, wt * j["est_permille"] // 1000)}
+            got = {k: x[k] for k in intended}
+            if got != intended:
+                diff = {k: (intended[k], got[k]) for k in intended if intended[k] != got[k]}
+                v.append(D.viol(f"C17:model-changed-input|{'+'.join(sorted(diff))}", f"job #{i + 1}: (given, stored) {diff}"))
+                break
         if [x["name"] for x in a] != [x["name"] for x in b]:
             v.append(D.viol("C17:job-order-changed", f"{[x['name'] for x in a]} -> {[x['name'] for x in b]}"))
         else:
